@@ -67,6 +67,9 @@ type sysCase struct {
 	Targets []sysTarget `json:"targets"`
 	MaxProc int64       `json:"maxProc"`
 	Params  bool        `json:"params"`
+	// JobLabel: every third target carries a discovered `job` label that differs from its job_name (Prometheus
+	// keeps a discovered job label; the target still belongs to its scrape config)
+	JobLabel bool `json:"jobLabel,omitempty"`
 	// DropRule: job0 and job1 start with metric_relabel_configs that drop drop_.* samples
 	DropRule bool       `json:"dropRule,omitempty"`
 	Faults   []sysFault `json:"faults,omitempty"`
@@ -430,6 +433,9 @@ func writeConfig(path, farmHost string, c *sysCase, dropped map[int]bool, rule b
 				continue
 			}
 			fmt.Fprintf(&b, "  - targets: ['%s']\n    labels:\n      __metrics_path__: /t/%d/metrics\n      tid: \"%d\"\n      note: \"%s\"\n", farmHost, t.ID, t.ID, longNote)
+			if c.JobLabel && t.ID%3 == 0 {
+				fmt.Fprintf(&b, "      job: \"team-%d/node\"\n", t.ID)
+			}
 		}
 	}
 	_ = ioutil.WriteFile(path, []byte(b.String()), 0644)
@@ -905,6 +911,7 @@ func runSys(c *sysCase) (vs []vkit.Violation, classes []string, infra error) {
 
 func genSys(t *rapid.T, faults bool) *sysCase {
 	c := &sysCase{Shards: rapid.IntRange(2, 4).Draw(t, "shards"), Params: rapid.Bool().Draw(t, "params"), DropRule: rapid.Bool().Draw(t, "dropRule")}
+	c.JobLabel = rapid.Bool().Draw(t, "jobLabel")
 	c.MaxProc = int64(rapid.SampledFrom([]int{40, 60, 100}).Draw(t, "maxProc"))
 	n := rapid.IntRange(2, 9).Draw(t, "targets")
 	// leave room: a static shard manager cannot scale up, and one shard may start with a full head
